@@ -53,6 +53,9 @@ def check(run, prog, tier):
     run.rule("C14-H", "initial states are handed out for every kind of bath the aggregate can have: none, correlation functions, "
                       "relaxation rates (what the bath does not define is asked for, not assumed)", minimum=4)
     rule_H(run, prog)
+    run.rule("C14-I", "the temperature a thermal state is built with is taken from the environments that are present, never "
+                      "short-cut by a summary flag that a remover clears while other environments remain", minimum=1)
+    rule_I(run, prog)
 
 
 def rule_G(run, prog):
@@ -587,3 +590,59 @@ def rule_H(run, prog):
                            message="%s uses the value of self.sbi.%s(...) without comparing it with None: for a bath given by relaxation "
                                    "rates the accessor returns None, which ends up in an array of energies" % (fn.short, c.func.attr),
                            loc=fn.loc(c))
+
+
+def rule_I(run, prog):
+    """'Populations in the ratio exp(-(E_a-E_b)/kT)' at the temperature of the system's bath.  A Molecule keeps per-transition
+    tables (self.egcf[...], self._has_egcf[...]) and a summary flag that is set to True whenever an entry is stored.  A
+    summary flag that some method sets to False unconditionally while it clears ONE entry of the table (so other entries
+    may remain) does not mean 'no entry' when it is False.  get_temperature (and everything the thermal state is built
+    from) must therefore not return a value on `not self.<flag>`: it has to look at the entries."""
+    from ..loader import parents_map
+    rid = "C14-I"
+    cls = prog.cls("quantarhei.builders.molecules.Molecule")
+    # summary flags: constant True stored in a method that also stores a table element; constant False stored at the top
+    # level of a method that clears one table element
+    setters, clearers = {}, {}
+    for nme, fn in cls.methods.items():
+        elem_store = [st for st in walk_no_nested(fn.node) if isinstance(st, ast.Assign) and isinstance(st.targets[0], ast.Subscript)
+                      and isinstance(st.targets[0].value, ast.Attribute) and norm(st.targets[0].value.value) == "self"]
+        if not elem_store:
+            continue
+        for st in walk_no_nested(fn.node):
+            if isinstance(st, ast.Assign) and isinstance(st.targets[0], ast.Attribute) and norm(st.targets[0].value) == "self" \
+                    and isinstance(st.value, ast.Constant) and isinstance(st.value.value, bool):
+                (setters if st.value.value else clearers).setdefault(st.targets[0].attr, []).append((fn, st))
+    unsound = {}
+    for flag, cl in clearers.items():
+        if flag not in setters:
+            continue
+        for fn, st in cl:
+            if fn.name == "__init__":
+                continue
+            top = st in fn.node.body
+            clears_one = any(isinstance(x, ast.Assign) and isinstance(x.targets[0], ast.Subscript)
+                             and isinstance(x.value, ast.Constant) and x.value.value in (None, False)
+                             for x in walk_no_nested(fn.node))
+            if top and clears_one:
+                unsound[flag] = fn
+    f = cls.methods["get_temperature"]
+    prog.consulted.add(f.relpath)
+    reach = [f] + [cls.methods[c.func.attr] for c in walk_no_nested(f.node) if isinstance(c, ast.Call) and isinstance(c.func, ast.Attribute)
+                   and norm(c.func.value) == "self" and c.func.attr in cls.methods]
+    bad = None
+    for g in reach:
+        for st in walk_no_nested(g.node):
+            if isinstance(st, ast.If) and isinstance(st.test, ast.UnaryOp) and isinstance(st.test.op, ast.Not):
+                a = st.test.operand
+                if isinstance(a, ast.Attribute) and norm(a.value) == "self" and a.attr in unsound and any(
+                        isinstance(x, ast.Return) and x.value is not None for x in st.body):
+                    bad = (g, st, a.attr)
+    run.obligation(rid, "Molecule.get_temperature", bad is None, key="temperature-from-the-entries",
+                   message="%s returns a value when self.%s is False; %s sets that flag to False while it clears one entry of the "
+                           "per-transition tables, so the flag can be False although other transitions still carry a bath: the "
+                           "thermal state then is the T = 0 state of a molecule coupled to a finite-temperature bath"
+                           % (bad[0].short if bad else "", bad[2] if bad else "", unsound[bad[2]].short if bad else ""),
+                   loc=bad[0].loc(bad[1]) if bad else f.loc(f.node), sample={"unsound_summary_flags": sorted(unsound)})
+    if not unsound:
+        raise AnalysisError("Molecule: no summary flag cleared next to a single table entry found (1 confirmed: _has_system_bath_coupling)")
